@@ -20,6 +20,16 @@ theorem C02_model_meets_spec (e : Engines) (hwf : EnginesWF e) (c : Conf) (u : U
   unfold C02.specOK C02.check handle
   cases hres : reserved c q
   · rw [shortCircuit_none c q hres]
+    simp only [Bool.false_eq_true, if_false]
+    cases hrwc : (filteringOn c && qhost q != [] && legacyRewritten e c (qhost q) q.qtype)
+    case true =>
+      simp only [Bool.and_eq_true, bne_iff_ne, ne_eq] at hrwc
+      rw [handleMain_rewritten e c u q hrwc.1.1 hrwc.1.2 hrwc.2]
+      simp only [if_true]
+      by_cases hcn : rewriteCanon e c q ≠ [] ∧ rewriteIPs e c q = []
+      · rw [if_pos hcn]; simp [Upstream.exchange]
+      · rw [if_neg hcn]; simp [cnameWithIPs, reply]
+    simp only [Bool.false_eq_true, if_false]
     cases hpre0 : precededByOther e c q
     case true => simp
     cases hob : otherBlocks e c q
@@ -211,5 +221,20 @@ example : reserved exConf exQ4 = false ∧ blockedByRules (ruleEngines exBlock [
     respFilterApplies (ruleEngines exBlock []) exConf exQ4 = true ∧
     offending (ruleEngines exBlock []) exConf exA = false ∧
     offending (ruleEngines exBlock []) exConf exCNAME = true := by decide
+
+/-- a legacy rewrite `ads.example → canon.example.net` in front of the rule `||ads.example^` -/
+def rwConf : Conf :=
+  { toyConf with rewrites := C06.prepare [{ domain := [97, 100, 115, 46, 101, 120, 97, 109, 112, 108, 101], answer := [99, 97, 110, 111, 110, 46, 101, 120, 97, 109, 112, 108, 101, 46, 110, 101, 116], parsed := none }] }
+/-- "Ads.Example." A -/
+def rwQ : Query := { name := [65, 100, 115, 46, 69, 120, 97, 109, 112, 108, 101, 46], qtype := tA }
+
+/-- the hypotheses of `C01_rewrite_precedes_block` and `C02_rewritten_restores_question` are
+satisfiable for a name the rules block: the rewrite applies (canonical name, no addresses) and
+`||ads.example^` matches the same name -/
+example : reserved rwConf rwQ = false ∧ filteringOn rwConf = true ∧ qhost rwQ ≠ [] ∧
+    legacyRewritten (ruleEngines exBlock []) rwConf (qhost rwQ) tA = true ∧
+    rewriteCanon (ruleEngines exBlock []) rwConf rwQ ≠ [] ∧ rewriteIPs (ruleEngines exBlock []) rwConf rwQ = [] ∧
+    ruleBlockedName (ruleEngines exBlock []) rwConf (qhost rwQ) tA = true := by
+  decide +kernel
 
 end AGH.Filter
